@@ -7,7 +7,7 @@ from hypothesis import strategies as st
 
 from .. import dimsegen as dg
 from .. import refcmd
-from ..common import Violation, HarnessError, hyp_search, parallel, lib_frame
+from ..common import Violation, HarnessError, hyp_search, parallel, lib_frame, quiet_warnings
 from .c06 import norm
 
 LEVEL = 'exploration'
@@ -205,7 +205,7 @@ def labels(cf, steps, dec):
 
 
 def run_class(ctx, job):
-    warnings.simplefilter('ignore')
+    quiet_warnings()
     for cf in job['cfs']:
         def fn(value, cf=cf):
             _, steps, pc_id, M, dec = value
@@ -313,7 +313,7 @@ def run_storage_files(ctx):
 
 
 def run(ctx):
-    warnings.simplefilter('ignore')
+    quiet_warnings()
     try:
         refcmd.self_test()
     except refcmd.CmdError as exc:
@@ -332,7 +332,7 @@ def run(ctx):
 
 
 def replay(case):
-    warnings.simplefilter('ignore')
+    quiet_warnings()
     if case.get('storage_file'):
         from ..common import Ctx
         sub = Ctx('C08', 'quick', 1)
